@@ -163,6 +163,17 @@ pub fn stress_sources() -> Vec<(String, String)> {
         "constant-lookalikes".into(),
         "let x = 1; let y = true; let z = null; let one = 1;\nprint(\"1\"); print(\"true\"); print(\"null\"); print(\"x\"); print(\"one\"); print(\"~\"  , x); print(\"\\n\");\nlet o = object begin let x = 2; let one = 3; function x() -> 4; function one(one) -> one; end;\nfunction x() -> 5;\nprint(\"~ ~ ~ ~ ~ ~ ~ ~\\n\", x, one, o.x, o.one, o.x(), o.one(6), x(), y);\nprint(\"~ ~ ~\\n\", 1 == true, null == false, 0 == null);\nprint(\"if:consequent:0 loop:body:1 λ: ::size_0 ~\\n\", if x == 1 then 7 else 0);\n".into(),
     ));
+    // methods returning `this`, chained; an object stored in its own field (not printed); a loop
+    // inside an array initializer inside a method; inherited `get` / `set` through index sugar
+    v.push((
+        "this-chains-and-self-fields".into(),
+        "let b = object begin let n = 0; let me = null; function inc() -> begin this.n <- this.n + 1; this end; function get(i) -> this.n * 10 + i; function set(i, v) -> begin this.n <- v; this end; function fill(k) -> array(k, begin let j = 0; let s = 0; while j < this.n do begin s <- s + j; j <- j + 1 end; s end); end;\nb.me <- b;\nprint(\"~ ~ ~\\n\", b.inc().inc().inc().n, b.me.me.me.n, null == b.me);\nlet child = object extends b begin let own = 1; end;\nprint(\"~ ~ ~\\n\", child[2], (child[0] <- 5).n, b.n);\nprint(\"~ ~\\n\", b.fill(3), child.inc().n);\n".into(),
+    ));
+    // the README's object examples, verbatim apart from the added prints
+    v.push((
+        "readme-objects".into(),
+        "let point = object\nbegin\n  let x = 0;\n  let y = 1;\n  let z = 2;\n  function print() ->\n  begin\n    print(\"x=~, y=~, z=~\\n\", this.x, this.y, this.z);\n  end\nend;\npoint.print();\nprint(\"x=~, y=~, z=~\\n\", point.x, point.y, point.z);\nfunction new(x) ->\n  object\n  begin\n    let inner = x;\n    function + (operand) -> this.inner + operand.inner\n  end;\nlet x = new(1);\nlet y = new(2);\nlet r = x + y;\nprint(\"~\\n\", r);\nlet r2 = x.+(y);\nprint(\"~\\n\", r2);\nlet pseudo_one = object extends 1 begin end;\nlet pseudo_two = object extends 2 begin end;\nprint(\"~\\n\", pseudo_one + 2);\nprint(\"~\\n\", pseudo_two + 1);\nfunction immutable_array(len, value) ->\n    object extends array(len, value)\n    begin\n      function set(index, value) ->\n        print(\"Cannot set value: immutable array\\n\");\n    end;\nlet arr = immutable_array(10, 42);\narr[0] <- 6;\nprint(\"~\\n\", arr);\nfunction math_array(len, value) ->\n    object extends array(len, value)\n    begin\n      let length = len;\n      function + (value) ->\n      begin\n        let i = 0;\n        let result = array(this.length, null);\n        while i < this.length do\n        begin\n          result[i] <- this[i] + value;\n          i <- i + 1;\n        end;\n        result\n      end\n    end;\nlet arr1 = math_array(10, 5);\nlet arr2 = arr1 + 1;\narr2[0] <- 7;\nprint(\"~\\n\", arr2);\nlet a = array(3, null);\nlet b = a;\nb[1] <- 42;\nprint(\"~ ~\\n\", a, b);\nprint(\"~\\n\", pseudo_one + pseudo_two);\n".into(),
+    ));
     // several zero-length arrays and empty objects
     v.push(("empty-allocations".into(), "let k = 0; while k < 3 do begin array(0, k); array(0, begin k end); object begin end; k <- k + 1 end;\nprint(\"~ ~ ~\\n\", array(0, 1), array(0, begin 2 end), object begin end);\n".into()));
     // user-defined methods that carry the Feeny names of built-ins
